@@ -74,9 +74,24 @@ func runC24(c *an.Ctx) {
 		// the bound compared is MAX_PAYLOAD_LEN and the allocation size is the checked length
 		okBound, okSize := false, false
 		maxPayload, _ := c.P.Obj("p2pserver/common.MAX_PAYLOAD_LEN").(*types.Const)
-		for _, b := range rm.Blocks {
+		var rmBlocks []*ssa.BasicBlock
+		for _, g := range an.InlineReach(rm) {
+			rmBlocks = append(rmBlocks, g.Blocks...)
+		}
+		isLength := func(v ssa.Value) bool {
+			for _, d := range an.Deref(rm, v) {
+				if cv, isCv := d.(*ssa.Convert); isCv {
+					d = cv.X
+				}
+				if !strings.HasSuffix(an.AccessPathIn(rm, d), ".Length") {
+					return false
+				}
+			}
+			return true
+		}
+		for _, b := range rmBlocks {
 			for _, in := range b.Instrs {
-				if bo, ok := in.(*ssa.BinOp); ok && bo.Op == token.GTR && strings.HasSuffix(an.AccessPath(bo.X), ".Length") {
+				if bo, ok := in.(*ssa.BinOp); ok && bo.Op == token.GTR && isLength(bo.X) {
 					if k, isK := bo.Y.(*ssa.Const); isK && maxPayload != nil && k.Value != nil && constant.Compare(k.Value, token.EQL, maxPayload.Val()) {
 						okBound = true
 					}
@@ -86,7 +101,7 @@ func runC24(c *an.Ctx) {
 					if cv, isCv := l.(*ssa.Convert); isCv {
 						l = cv.X
 					}
-					if strings.HasSuffix(an.AccessPath(l), ".Length") {
+					if isLength(l) {
 						okSize = true
 					}
 				}
